@@ -19,7 +19,9 @@ func packetsWithSizeFromBytes(length int, r io.Reader) []packet {
 	var packets []packet
 	for {
 		var value = make([]byte, length)
-		n, err := r.Read(value)
+		// A reader may return fewer bytes than requested without being at the end,
+		// read until the packet is full or the reader is exhausted
+		n, err := io.ReadFull(r, value)
 		if n == 0 {
 			break
 		}
@@ -31,7 +33,7 @@ func packetsWithSizeFromBytes(length int, r io.Reader) []packet {
 		p := packet{length: n, value: value[:n]}
 		packets = append(packets, p)
 
-		if n < length || err == io.EOF {
+		if n < length || err != nil {
 			break
 		}
 	}
